@@ -2,7 +2,8 @@ package main
 
 // C09 — any device-side failure stops the run and is reported truthfully.
 // See docs/C09.md.  Modes of this binary:
-//   vh-c09 -devsim <dir>      console device simulator (spawned via SIMULATE_ROUTER)
+//   vh-c09 -devsim <dir>      console device simulator (spawned via SIMULATE_ROUTER, or as `ssh` found in PATH)
+//   vh-c09 -fakescp <dir> ... stands in for `scp` (Linux: found in PATH; records the copy, fails on demand)
 //   vh-c09 -c09worker         run cases (JSON lines) against the real code in-process
 //   vh-c09 -probe <file>      run one CaseIn and print the CaseOut (debugging)
 //   vh-c09 -prop C09 ...      the harness proper (vhlib.Main)
@@ -18,6 +19,10 @@ import (
 func main() {
 	if len(os.Args) >= 3 && os.Args[1] == "-devsim" {
 		runDevSim(os.Args[2])
+		return
+	}
+	if len(os.Args) >= 3 && os.Args[1] == "-fakescp" {
+		runFakeScp(os.Args[2], os.Args[3:])
 		return
 	}
 	if len(os.Args) >= 2 && os.Args[1] == "-c09worker" {
